@@ -159,7 +159,8 @@ class ModelStub:
         out = np.empty(len(x), dtype=object if self.ctx.mode == "sym" else float)
         for i, row in enumerate(self._rows(x)):
             inside = all(bool((v >= 0) & (v < 1)) for v in row)
-            out[i] = 0.0 if inside else -math.inf
+            # Model.log_prior_unit_hypercube may be overridden by the user: any finite value inside the cube, a function of the point
+            out[i] = self.ctx.uf("LU", *row) if inside else -math.inf
         return out
 
     def batch_evaluate_log_likelihood(self, x, unit_hypercube=False):
@@ -301,7 +302,7 @@ def _store(ctx, OrderedSamples, p, m, P_old, prefix, weights_old):
         row = [s[nm][i] for nm in names]
         s["logL"][i] = ctx.uf("LL", *row)
         s["logP"][i] = ctx.uf("LP", *row)
-        s["logU"][i] = 0.0
+        s["logU"][i] = ctx.uf("LU", *row)
         s["it"][i] = -1 if i % 2 == 0 or P_old == 1 else 0
         for j in range(P_old):
             log_q[i, j] = _Q(ctx, p, row, j)
